@@ -118,6 +118,9 @@ type State struct {
 	known    [][]byte
 	syncMaps map[*value]*mapV
 	atomCells map[*value]*value
+	textLen   map[string]*Term
+	schedule  bool // C19: the iteration order of map ranges is released (symbolic)
+	mapOrders, clockReads, randReads int
 }
 
 func (st *State) curFnOr(cc *ssa.CallCommon) *ssa.Function {
@@ -781,7 +784,10 @@ func (fr *frame) visit(in ssa.Instruction) (jumped bool) {
 		case *mapV:
 			it := &mapIter{}
 			if x != nil {
-				it.keys, it.vals = append([]value{}, x.keys...), append([]value{}, x.vals...)
+				// Go leaves the iteration order open: insertion order normally, a symbolic permutation once released (C19)
+				for _, j := range st.mapOrder(len(x.keys)) {
+					it.keys, it.vals = append(it.keys, x.keys[j]), append(it.vals, x.vals[j])
+				}
 			}
 			fr.env[in] = it
 		case *Str:
@@ -1091,7 +1097,18 @@ func (fr *frame) indexAddr(in *ssa.IndexAddr) value {
 	case []value:
 		i, ok := asConcreteInt(idx)
 		if !ok {
-			panic(pathEnd{kind: "unsupported", msg: "symbolic slice index in " + fr.fn.String()})
+			// symbolic index into a Go slice of concrete length: out of range is a panic obligation, in range forks over
+			// the (few) positions so that the element address stays concrete
+			if len(x) > 64 {
+				panic(pathEnd{kind: "unsupported", msg: "symbolic slice index in " + fr.fn.String()})
+			}
+			fr.st.mayPanic(BVCmp("bvuge", idx, BVConstI(int64(len(x)), 64)), "index out of range", fr, in.Pos())
+			for j := 0; j < len(x); j++ {
+				if fr.st.decide(Eq(idx, BVConstI(int64(j), 64))) {
+					return &x[j]
+				}
+			}
+			panic(pathEnd{kind: "dead"})
 		}
 		if i < 0 || i >= len(x) {
 			panic(pathEnd{kind: "panic", msg: "index out of range in " + fr.fn.String()})
@@ -1316,7 +1333,8 @@ func (fr *frame) invoke(fn value, args []value, cc *ssa.CallCommon) value {
 	case string:
 		switch fn {
 		case "err.Error":
-			return &Str{Len: st.freshVar("errtext_len", BV(64))} // opaque text
+			sk, lv := st.errTextOf(iface{t: errObjType, v: args[0]})
+			return st.newText(sk, lv) // a text term: bytes exist only natively
 		case "registry.RegisterImplementations":
 			// records (interface type -> implementation types) from the CURRENT source's RegisterInterfaces functions
 			ip, ok := args[1].(iface)
@@ -1343,6 +1361,12 @@ func (fr *frame) invoke(fn value, args []value, cc *ssa.CallCommon) value {
 
 func (fr *frame) builtin(b *ssa.Builtin, args []value, cc *ssa.CallCommon) value {
 	switch b.Name() {
+	case "ssa:wrapnilchk":
+		// wrapper of a value-receiver method called through a pointer: panics on a nil pointer, else returns it
+		if p, ok := args[0].(*value); ok && p == nil {
+			panic(pathEnd{kind: "panic", msg: "value method called using a nil pointer in " + fr.fn.String()})
+		}
+		return args[0]
 	case "len":
 		switch x := args[0].(type) {
 		case *Str:
